@@ -98,6 +98,22 @@ EXTRA = ("Prefer mechanisms that differ in KIND from everything listed below. Th
          "config_loader.py, analyzer.py, report.py, spending_report.js, section_engine.py, format_parser.py, classification.py, parsers.py, merchant_utils.py, "
          "modifier_parser.py) rather than expr_parser.py and merchant_engine.py unless the property lives there.  Run `git -C <your worktree> log --oneline | "
          "head -60` and make sure your change is not simply the reverse of one of those commits.  Put your two variants in two different files if the property allows.")
+EXTRA_R13 = EXTRA
+EXTRA = ("Prefer mechanisms that differ in KIND from everything listed below. This time think about HISTORIES and REPETITION rather than single inputs: the second, "
+         "third or hundredth call of a function in one process (module-level state, default arguments, class attributes, functools caches, compiled patterns, "
+         "iterators consumed once, lists extended in place); the same command run twice on one budget (files left behind by the first run: reports, backups, "
+         "temporary files, schema markers); two budgets or two settings files handled in one process; a long statement after a short one; a rule file loaded "
+         "after another rule file; an object handed in by the caller that is modified or kept (transactions, rows, format specs, config dicts, argparse "
+         "namespaces); generators or zip() that silently stop early; dict or set iteration order that depends on insertion history; sort() that is stable only "
+         "by accident; floating-point sums whose result depends on the order of addition; and `tally` sub-commands that few people run (diag, inspect, "
+         "reference, workflow, update, explain with several queries at once, discover with --limit / --format csv).  Also look for off-by-one and boundary "
+         "slips in counting and slicing ([:n] vs [:n+1], range ends, >= vs >, first/last element treated specially, empty and single-element collections).  "
+         "Spread out over the code base (commands/*.py, cli.py, config_loader.py, analyzer.py, report.py, spending_report.js, section_engine.py, "
+         "format_parser.py, classification.py, parsers.py, merchant_utils.py, modifier_parser.py) rather than expr_parser.py and merchant_engine.py unless the "
+         "property lives there.  Run `git -C <your worktree> log --oneline | head -60` and make sure your change is not simply the reverse of one of those "
+         "commits.  Put your two variants in two different files if the property allows.")
+if len(sys.argv) > 2 and sys.argv[2] == 'r13':
+    EXTRA = EXTRA_R13
 if len(sys.argv) > 2 and sys.argv[2] == 'r12':
     EXTRA = EXTRA_R12
 if len(sys.argv) > 2 and sys.argv[2] == 'r11':
